@@ -66,14 +66,63 @@ def polymorphic(spec, t):
     return bool(names)
 
 
+def discriminated_cases(ctx, n):
+    """Union members / sibling classes told apart by hand-written recognisers that pin an attribute to a
+    value (`require_attribute_value` / `_not`), with the value written in every spelling YAML 1.1 knows"""
+    yaml, yatiml = L.setup()
+    rng = ctx.rng
+    S = G.S
+    spell = {493: ['493', '0755', '0x1ED', '4_93', '8:13', '0b111101101'], 15: ['15', '017', '0xF', '1_5'],
+             1: ['1', '01', '0x1', '+1'], 420: ['420', '0644', '7:00']}
+    for _ in range(n):
+        want = rng.choice(list(spell))
+        other = rng.choice([x for x in spell if x != want])
+        P = lambda nm, t: dict(name=nm, type=t)   # noqa: E731
+
+        def plain(name, rec):
+            ps = [P('mode', ('int',))]
+            return dict(name=name, bases=[], registered=True, kind='plain', params=ps, all_params=ps, extra=False,
+                        abstract=None, define_init=True, recognize=rec)
+        a = plain('Alpha', [('rval', 'mode', want)])
+        b = plain('Beta', [('rvalnot', 'mode', want)])
+        spec = [a, b]
+        rng.shuffle(spec)
+        ms = [('cls', 'Alpha'), ('cls', 'Beta')]
+        rng.shuffle(ms)
+        val = rng.choice([want, want, other])
+        text = rng.choice(spell[val])
+        # what the text means is PyYAML's business: ask it (plain yaml.safe_load, not yatiml)
+        if yaml.safe_load(text) != val or type(yaml.safe_load(text)) is not int:
+            ctx.count('discriminated_spelling_skipped')
+            continue
+        try:
+            c = L.build_case(rng, yaml, yatiml, spec, ('union', ms), ('m', [(S('mode'), S(text))], None),
+                             ('discriminated', val))
+            L.run_case(c, yaml)
+        except Exception as e:  # noqa
+            ctx.count('gen_error:' + type(e).__name__)
+            continue
+        ctx.count('discriminated')
+        c.expect_class = 'Alpha' if val == want else 'Beta'
+        c.expect_value = val
+        yield c
+
+
 def explore(ctx):
     yaml, yatiml = L.setup()
     rng = ctx.rng
     cases = LC.CaseBuffer(ctx)
     from props import c02
     for c in itertools.chain(LC.gen_cases(ctx, ctx.budget(350, 8000), mutate_p=0.35, prop='C03'),
-                             LC.hierarchy_cases(ctx, ctx.budget(250, 5000))):
+                             LC.hierarchy_cases(ctx, ctx.budget(250, 5000)),
+                             discriminated_cases(ctx, ctx.budget(80, 1500))):
         cases.append(c)
+        if getattr(c, 'expect_class', None):
+            got = c.real_out
+            if not (got[0] == 'ok' and type(got[1]).__name__ == c.expect_class and got[1].mode == c.expect_value):
+                ctx.violation('{!r} holds the integer {}, so the recognisers single out {}; load gives {} {!r}'.format(
+                    c.text, c.expect_value, c.expect_class, got[0], got[1])[:300],
+                    dict(L.describe(c), key='discriminated:{}:{}'.format(c.expect_class, c.text)))
         LC.record_distribution(ctx, c)
         nontrivial = polymorphic(c.spec, c.doc_type)
         ctx.case((c.text, repr(c.doc_type), repr([x['name'] for x in c.spec])), nontrivial)
